@@ -614,7 +614,7 @@ var iter_type(var self);
 #define foreach_in(X, S) for(var \
   __##X = (S), \
   __Iter##X = instance(__##X, Iter), \
-  X = ((struct Iter*)(__Iter##X))->iter_init(__##X); \
+  X = (__Iter##X ? ((struct Iter*)(__Iter##X))->iter_init(__##X) : iter_init(__##X)); \
   X isnt Terminal; \
   X = ((struct Iter*)(__Iter##X))->iter_next(__##X, X))
 
